@@ -335,6 +335,13 @@ class Impl(object):
         self.sp = dict(Application=Application, rpc=rpc, ServiceBase=ServiceBase, Integer=Integer,
                        Unicode=Unicode, Array=Array, ComplexModel=ComplexModel, HttpRpc=HttpRpc,
                        WsgiApplication=WsgiApplication)
+        # MethodContext.close() runs gc.collect() once per const.MIN_GC_INTERVAL (1 s, wall clock); over the
+        # heap a generated run accumulates (thousands of throw-away classes and applications, pinned by
+        # spyne's memoize tables) one such pass grows to seconds and dominates the run time.  Collecting less
+        # often changes nothing that C03 observes.  The harness instead drops its own caches and the memo table
+        # of get_simple_type_info_with_prot every few hundred applications (see trim()).
+        from spyne import const
+        const.MIN_GC_INTERVAL = 1e12
         self.n = 0
         self.classes = {}
         self.apps = {}
@@ -366,6 +373,8 @@ class Impl(object):
         key = json.dumps([fields, delim, strict, validator], sort_keys=True, default=str)
         if out_header is None and ret is None and key in self.apps:
             return self.apps[key]
+        if len(self.apps) > 400:
+            self.trim()         # before any class of the new application is created
         sp = self.sp
         types = [self.member(ft) for _, ft in fields]
         names = [n for n, _ in fields]
@@ -390,10 +399,21 @@ class Impl(object):
                               out_protocol=sp['HttpRpc']())
         w = sp['WsgiApplication'](a)
         if out_header is None and ret is None:
-            if len(self.apps) > 400:
-                self.apps.clear()
             self.apps[key] = w
         return w
+
+    def trim(self):
+        """forget the generated applications and classes, and the one memo table of spyne that pins them
+        (get_simple_type_info_with_prot is keyed by (class, protocol instance): a pure cache of a pure
+        function, recomputed on demand), then collect"""
+        import gc
+        from spyne.util import memo
+        self.apps.clear()
+        self.classes.clear()
+        for m in memo.memoize.registry:
+            if getattr(m.func, '__name__', '') == 'get_simple_type_info_with_prot':
+                m.reset()
+        gc.collect()
 
     def get(self, w, qs):
         env = {'REQUEST_METHOD': 'GET', 'PATH_INFO': '/f', 'QUERY_STRING': qs, 'SERVER_NAME': 'x',
@@ -551,7 +571,7 @@ def correspond_by_size(check, name, case_type, okb, cases, show=None, limit=6000
 def corr_s2cmi(check, tier):
     from spyne.protocol.dictdoc import simple
     rng = check.rng
-    n = 250 if tier == 'quick' else 4000
+    n = 250 if tier == 'quick' else 1500
     seqs = [[11, 2, 0, 10, 3], [3, 4, 7, 5, 0, 8], [], [5], [0, 1, 2, 3], [9, 8, 7, 6, 5, 4, 3, 2, 1, 0], [5, 5, 1, 5, 1]]
     for _ in range(n):
         k = rng.choice([1, 2, 3, 5, 8, 13, 30])
@@ -607,7 +627,7 @@ def junk_key(rng):
 def corr_keys(check, tier):
     from spyne.protocol.dictdoc import simple
     rng = check.rng
-    n = 300 if tier == 'quick' else 5000
+    n = 300 if tier == 'quick' else 1500
     keys = ['a', 'a[0]', 'a[10].b[2]', 'a[1][2]', 'a[', 'a[]', 'a[1', '[1]', 'a[x]', 'a[1]]', 'a[[1]', 'a[1[2]', 'a[007].b',
             'a.b.c', 'xs[9]', 'xs[10]', 'xs[2]', 'a[1].b', 'a[01].b', 'a[1]b', 'a]', '', '[', ']', '[12', '[1][', 'a[٣]']
     for _ in range(n):
@@ -655,7 +675,7 @@ def corr_keys(check, tier):
 def corr_parse_qs(check, tier):
     from spyne.server.wsgi import _parse_qs
     rng = check.rng
-    n = 350 if tier == 'quick' else 6000
+    n = 350 if tier == 'quick' else 2000
     qss = ['', '&', 'a=1', 'a=1&a=2;a=3', 'a', 'a&b=', '=x', '=', 'a==b', 'a=b=c', 'a+b=c+d', 'a%20b=%41%7a', 'a=%', 'a=%4',
            'a=%4g', 'a=%%41', 'a%3Db=1', 'a%26=1', 'x=%2B', 'a[0].b=1&a[1].b=2', 'a%5B0%5D=1', ';;a=1;;', 'a=1&&b=2', 'a=%7E%7e',
            'a=%00', 'k=%25%32%35']
@@ -685,7 +705,7 @@ def corr_flatten(check, impl, tier):
     from spyne.protocol.dictdoc import SimpleDictDocument
     rng = check.rng
     g = Gen(rng)
-    n = 250 if tier == 'quick' else 2500
+    n = 250 if tier == 'quick' else 1000
     cases = []
     for _ in range(n):
         fields = g.signature()
@@ -823,8 +843,8 @@ def malformed_pairs(g, fields, delim, rng):
 def corr_get(check, impl, tier):
     rng = check.rng
     g = Gen(rng)
-    n_valid = 400 if tier == 'quick' else 4000
-    n_bad = 300 if tier == 'quick' else 3000
+    n_valid = 400 if tier == 'quick' else 1600
+    n_bad = 300 if tier == 'quick' else 1200
     cases = []
     for i in range(n_valid + n_bad):
         fields = g.signature()
@@ -889,7 +909,7 @@ def corpus(g):
 def oracle_get(check, impl, tier):
     rng = check.rng
     g = Gen(rng)
-    n = 1000 if tier == 'quick' else 12000
+    n = 1000 if tier == 'quick' else 4000
     todo = []
     for fields, sv, indexed, strict in corpus(g):
         for validator in (None, 'soft'):
@@ -908,7 +928,7 @@ def oracle_get(check, impl, tier):
         if len(pairs0) <= 4 and len(set(k for k, _ in pairs0)) == len(pairs0):
             perms = [list(p) for p in itertools.permutations(pairs0)]
         else:
-            perms += [shuffle_pairs(pairs0, rng) for _ in range(2 if tier == 'quick' else 6)]
+            perms += [shuffle_pairs(pairs0, rng) for _ in range(2 if tier == 'quick' else 4)]
         expected = compact(dv)[1]
         spec_tie_case(check, strict, delim, fields, dv, perms[-1])
         for pairs in perms:
@@ -964,7 +984,7 @@ def oracle_flat_roundtrip(check, impl, tier):
     from spyne.protocol.dictdoc import SimpleDictDocument
     rng = check.rng
     g = Gen(rng)
-    n = 400 if tier == 'quick' else 4000
+    n = 400 if tier == 'quick' else 1600
     for _ in range(n):
         fields = g.signature()
         delim = rng.choice(DELIMS)
@@ -1026,7 +1046,7 @@ def oracle_response(check, impl, tier):
     from spyne.model.primitive import String
     rng = check.rng
     g = Gen(rng)
-    n = 60 if tier == 'quick' else 600
+    n = 60 if tier == 'quick' else 300
     H = ComplexModel.__class__('C03RespHeader', (ComplexModel,),
                                {'_type_info': [('X-Count', Integer), ('Set-Cookie', String(max_occurs='unbounded')),
                                                ('X-Note', Unicode)], '__namespace__': 'c03'})
@@ -1136,7 +1156,7 @@ def run(check):
     check.prove('Props.C03', THEOREMS)
     check.prove('Props.C03_src', SRC_THEOREMS)
     del SPEC_TIE[:]
-    SPEC_TIE_MAX[0] = 600 if tier == 'quick' else 6000
+    SPEC_TIE_MAX[0] = 600 if tier == 'quick' else 2400
     impl = Impl()
     corr_s2cmi(check, tier)
     corr_keys(check, tier)
